@@ -178,6 +178,8 @@ def make_wf(w):
         return CustomWaveform(w[1])
     if k == "interp":
         return InterpolatedWaveform(w[1], w[2])
+    if k == "interp1d":
+        return InterpolatedWaveform(w[1], w[2], interpolator="interp1d", kind=w[3])
     if k == "composite":
         return CompositeWaveform(*[make_wf(x) for x in w[1]])
     raise ValueError(k)
@@ -239,6 +241,7 @@ def pulse_oracle(pulse: Pulse, ch) -> dict:
         fe=0,
         dd=False,
         sum=summary(pulse),
+        sum_adj=None,
         const=False,
         amp=0.0,
         det=0.0,
@@ -256,6 +259,8 @@ def pulse_oracle(pulse: Pulse, ch) -> dict:
             pulse.phase,
             pulse.post_phase_shift,
         )
+    if adj is not pulse:
+        info["sum_adj"] = summary(adj)     # the pulse as scheduled (validated again since the repair of F37)
     if d2 is not None:
         info["fs"] = int(adj.fall_time(ch, in_eom_mode=False))
         if ch.supports_eom():
@@ -280,6 +285,7 @@ def pulse_wire(info: dict, ref: int) -> str:
             str(int(info["dd"])),
             str(ref),
             sum_wire(info["sum"]),
+            sum_wire(info.get("sum_adj") or info["sum"]),
             str(int(info["const"])),
             rat(info["amp"]),
             rat(info["det"]),
